@@ -36,6 +36,26 @@ and after every operation the watcher tables of every object ever created that i
 reachable from the top object through the current paths must be empty (the test installs no
 watcher of its own, so whatever is found there was installed on the parent's behalf).
 
+Additional families (initial state 'full'; explicit histories):
+
+    arm:op         FAULT: op (rdk of every slot and leaf / lsa of every leaf -- operations that must call
+                   the method) is performed while the dependent method itself RAISES (after logging the
+                   call); the exception leaves the assignment and is caught.  Histories  arm:a ; c1 [; c2]
+                   and  p ; arm:a ; c1  over all applicable single operations p, c1, c2: the call is
+                   counted as usual (exactly one), and afterwards the attached objects must drive the
+                   method, detached ones must not and must keep no watcher.
+    upd[H](i+j)    H.param.update(...) : 1..2 single operations assigning DIFFERENT parameters of the
+                   object at H ('top' or an attached intermediate object), both orders
+    ctx[H](i+j+k)  `with batch_call_watchers(H):` 1..3 single operations (sam = re-assign the SAME
+                   object, req, rdk, det, att, rat of every slot, lsa of every leaf; the same slot may be
+                   assigned several times; at least one item assigns a parameter of H)
+                   Oracle: items assigning a parameter of H are batched and together cause at most one
+                   call; an item assigning a parameter of another object is an ordinary assignment (at
+                   most one call each; lenient: then also one call for the batched replacements, which
+                   are compared at the flush); exactly one call is demanded when the values reached
+                   before and after the whole batch differ and no item passed through an unresolved
+                   path.  Histories  batch ; c1  and  p ; batch ; probe  (probe = lsa / lsd of every leaf).
+
 Initial states: all slots attached ('full'), all empty ('empty'), and 'hole:<slot>' (everything
 attached except the sub-tree at <slot>, which is None) for every slot below the first level.
 The depth-3 configurations ('a.b.c.x', ...) additionally run, from every initial state, every
@@ -80,6 +100,9 @@ import param
 warnings.simplefilter('ignore')
 param.parameterized.get_logger().setLevel(logging.CRITICAL)
 LOG = []
+ARM = [False]
+class Boom(Exception):
+    pass
 class L(param.Parameterized):
     x = param.Integer(0)
     y = param.Integer(0)
@@ -95,7 +118,10 @@ class T(param.Parameterized):
     c = param.Parameter(None)
     z = param.Integer(0)
     @param.depends(%s, watch=True)
-    def m(self): LOG.append('m')
+    def m(self):
+        LOG.append('m')
+        if ARM[0]:
+            raise Boom('the dependent method raises')
 '''
 
 UNRES = '<unresolved>'
@@ -164,7 +190,25 @@ class Cfg:
 
 
 def op_str(op):
+    if op[0] == 'arm':
+        return 'arm:' + op_str(op[1])
+    if op[0] == 'bat':
+        return '%s[%s](%s)' % (op[1], op[2] or 'top', '+'.join(op_str(o) for o in op[3]))
     return '%s(%s)' % (op[0], ','.join(str(x) for x in op[1:]))
+
+
+SLOT_OPS = ('att', 'atd', 'bad', 'req', 'rdk', 'det', 'rat', 'sam')
+
+
+def op_order(cfg, op):
+    """deterministic sort key of an operation (the position in cfg.ops for the basic alphabet)"""
+    if op[0] == 'arm':
+        return (1, op_order(cfg, op[1])[1], '')
+    if op[0] == 'bat':
+        return (2, len(op[3]), op_str(op))
+    if op[0] == 'sam':
+        return (0, len(cfg.ops), op[1])
+    return (0, cfg.ops.index(op), '')
 
 
 def hist_str(hist, raised=()):
@@ -183,6 +227,7 @@ class Model:
         self.top = {'a': None, 'c': None, 'z': 0}
         self.detached = []       # idx in order of detachment
         self.instrs = []
+        self.last_batch = None
         self.fresh = 10
         kw = {}
         if init != 'empty':
@@ -318,8 +363,10 @@ class Model:
                 return False
             cur = self.raw_at(op[1])
             return cur is None or not self.objs[cur]['bad']
-        if kind == 'req':
+        if kind in ('req', 'sam'):
             return self.at(op[1]) is not None
+        if kind == 'arm':
+            return self.applicable(op[1])
         if kind == 'det':
             return self.parent_resolves(op[1]) and self.raw_at(op[1]) is not None
         if kind == 'rat':
@@ -348,9 +395,44 @@ class Model:
             self.objs[par]['sub'][parts[-1]] = idx
             self.instrs.append(('set', par, parts[-1], ('obj', idx)))
 
+    def holder_of(self, op):
+        """the object ('top' / index) whose parameter the single operation assigns (None: an
+        operation on a detached object)"""
+        if op[0] in SLOT_OPS:
+            return self.at('.'.join(op[1].split('.')[:-1]))
+        if op[0] == 'lsa':
+            return self.at(self.cfg.leaves[op[1]][0])
+        return None
+
     def apply(self, op):
         """mutates the shadow, appends instructions (the last one is the measured statement);
-        returns True iff the operation acts on a detached object"""
+        returns True iff the operation acts on a detached object.
+        ('arm', op): op performed while the dependent method is armed to raise.
+        ('bat', mode, H, items): the single operations `items` performed inside ONE batch on the
+        object currently at slot H ('' = the top object): mode 'upd' = H.param.update(**items),
+        mode 'ctx' = `with batch_call_watchers(H): items...`.  self.last_batch records, per item,
+        (item, values reached before, after, item assigns a parameter of H itself)."""
+        self.last_batch = None
+        if op[0] == 'arm':
+            return self.apply1(op[1])
+        if op[0] == 'bat':
+            _, mode, H, items = op
+            hidx = self.at(H)
+            start = len(self.instrs)
+            info = []
+            for it in items:
+                b = self.reached()
+                batched = self.holder_of(it) == hidx
+                self.apply1(it)
+                info.append((it, b, self.reached(), batched))
+            seg = self.instrs[start:]
+            self.instrs[start:] = [ins for ins in seg if ins[0] == 'new'] + \
+                [('batch', mode, hidx, [ins for ins in seg if ins[0] == 'set'])]
+            self.last_batch = info
+            return False
+        return self.apply1(op)
+
+    def apply1(self, op):
         kind = op[0]
         self.fresh += 1
         before = self.reachable()
@@ -363,6 +445,8 @@ class Model:
             self.set_slot(op[1], self.new_obj(op[1], {}, {}, bad=True))
         elif kind == 'req':
             self.set_slot(op[1], self.copy_tree(op[1], self.at(op[1]), {}))
+        elif kind == 'sam':
+            self.set_slot(op[1], self.at(op[1]))
         elif kind == 'rdk':
             self.set_slot(op[1], self.copy_tree(op[1], self.at(op[1]), {self.cfg.leaves[op[2]]: self.fresh}))
         elif kind == 'det':
@@ -415,11 +499,30 @@ def render(instr):
         t = 't' if tgt == 'top' else 'n%d' % tgt
         v = ('None' if val[1] is None else 'n%d' % val[1]) if val[0] == 'obj' else repr(val[1])
         return '%s.%s = %s' % (t, attr, v)
+    if k == 'batch':
+        _, mode, hidx, sets = instr
+        h = 't' if hidx == 'top' else 'n%d' % hidx
+        if mode == 'upd':
+            return '%s.param.update(%s)' % (h, ', '.join(render(x).split('.', 1)[1].replace(' = ', '=') for x in sets))
+        return '\n'.join(['with param.parameterized.batch_call_watchers(%s):' % h] + ['    ' + render(x) for x in sets])
     raise ValueError(instr)
+
+
+def setval(val, env):
+    return (None if val[1] is None else env[val[1]]) if val[0] == 'obj' else val[1]
 
 
 def execute(instr, env, ns):
     k = instr[0]
+    if k == 'batch':
+        _, mode, hidx, sets = instr
+        if mode == 'upd':
+            env[hidx].param.update(**{x[2]: setval(x[3], env) for x in sets})
+        else:
+            with ns['param'].parameterized.batch_call_watchers(env[hidx]):
+                for x in sets:
+                    execute(x, env, ns)
+        return
     if k == 'top':
         env['top'] = ns['T'](**{s: env[i] for s, i in instr[1].items()})
     elif k == 'new':
@@ -454,15 +557,65 @@ def expectation(specs, op, before, after, on_detached, fault=False):
         return (0, 0)
     if fault:
         return (0, 1)
-    changed = any(b != UNRES and a != UNRES and a != b for b, a in zip(before, after))
-    if changed:
+    if value_changed(before, after):
         return (1, 1)
-    touched = op[1] if op[0] in ('att', 'atd', 'bad', 'req', 'rdk', 'det', 'rat') else None
+    if uncertain(specs, op, before, after):
+        return (0, 1)
+    return (0, 0)
+
+
+def value_changed(before, after):
+    return any(b != UNRES and a != UNRES and a != b for b, a in zip(before, after))
+
+
+def uncertain(specs, op, before, after):
+    """the operation assigns a slot on the path of a dependency that does not resolve before or after it"""
+    touched = op[1] if op[0] in SLOT_OPS else None
     if touched is not None:
         for s, b, a in zip(specs, before, after):
             if (b == UNRES or a == UNRES) and (s + '.').startswith(touched + '.'):
-                return (0, 1)
-    return (0, 0)
+                return True
+    return False
+
+
+def batch_expectation(specs, info, before, after):
+    """(lo, hi) calls for one batch on an object H.  Items assigning a parameter of H itself are
+    batched: together they may cause at most ONE call; an item that assigns a parameter of another
+    object (a leaf of a sub-object, a slot of an object that the batch itself just attached) is an
+    ordinary assignment of its own: at most one call each.  At least one call is demanded only when
+    the values reached before and after the WHOLE batch differ (resolving both times) and no item
+    passed through an unresolved path."""
+    nb = ni = 0
+    unc = False
+    for it, b, a, batched in info:
+        u = uncertain(specs, it, b, a)
+        unc = unc or u
+        if value_changed(b, a) or u:
+            if batched:
+                nb = 1
+            else:
+                ni += 1
+    if ni and not nb and any(batched and it[0] != 'lsa' for it, _b, _a, batched in info):
+        nb = 1      # lenient: the batched replacements are compared at the flush, i.e. after the
+        #             ordinary assignments made on the replaced objects inside the batch
+    lo = 1 if (value_changed(before, after) and not unc) else 0
+    return lo, max(lo, nb + ni)
+
+
+def batch_shape(info):
+    """witness class of a batch, by what is assigned while it is open: 'direct+slot' a depended-on
+    parameter of the batched object itself and a sub-object slot; 'repeat' one slot assigned more than
+    once; 'slots' several different slots; 'slot' / 'direct' one slot / only parameters of the batched
+    object; '-' nothing."""
+    slots = [it[1] for it, _b, _a, _batched in info if it[0] != 'lsa']
+    direct = any(batched and it[0] == 'lsa' for it, _b, _a, batched in info)
+    if direct and slots:
+        return 'direct+slot'
+    if len(slots) > len(set(slots)):
+        return 'repeat'
+    if len(slots) > 1:
+        return 'slots'
+    return 'slot' if slots else ('direct' if direct else '-')
 
 
 # ------------------------------------------------------------------------------------------
@@ -493,6 +646,7 @@ def run_history(specs, init, hist):
     done = len(m.instrs)
     viols = []
     raised = []
+    shapes = []              # witness classes of the batches performed so far
     nfaultraise = 0
     steps = 0
     for i, op in enumerate(hist):
@@ -506,14 +660,21 @@ def run_history(specs, init, hist):
         for ins in new[:-1]:
             execute(ins, env, ns)
         del LOG[:]
+        ns['ARM'][0] = op[0] == 'arm'
         try:
             execute(new[-1], env, ns)
         except Exception as e:          # the real setter raised: recorded, the history goes on
             raised.append((i, type(e).__name__))
             if fault:
                 nfaultraise += 1
+        finally:
+            ns['ARM'][0] = False
         got = len(LOG)
-        lo, hi = expectation(specs, op, before, after, on_det, fault)
+        if op[0] == 'bat':
+            lo, hi = batch_expectation(specs, m.last_batch, before, after)
+            shapes.append(batch_shape(m.last_batch))
+        else:
+            lo, hi = expectation(specs, op[1] if op[0] == 'arm' else op, before, after, on_det, fault)
         steps += 1
         if not (lo <= got <= hi):
             if on_det:
@@ -526,7 +687,7 @@ def run_history(specs, init, hist):
                 kind, clause = 'multiple', 'C07/fires exactly once iff reached value changes'
             viols.append(dict(specs=specs, init=init, hist=tuple(hist[:i + 1]), kind=kind, clause=clause,
                               got=got, lo=lo, hi=hi, before=before, after=after, raised=tuple(raised),
-                              fault=fault))
+                              fault=fault, shapes=tuple(shapes)))
         reach = m.reachable()
         leaks = [(idx, watcher_count(env[idx])) for idx in range(len(m.objs)) if idx not in reach]
         leaks = [(idx, n) for idx, n in leaks if n]
@@ -534,7 +695,8 @@ def run_history(specs, init, hist):
             viols.append(dict(specs=specs, init=init, hist=tuple(hist[:i + 1]), kind='leak',
                               clause='C07/detached objects keep no watcher', got=leaks[0][1], lo=0, hi=0,
                               leak_role=m.objs[leaks[0][0]]['role'], leak_idx=leaks[0][0],
-                              before=before, after=after, raised=tuple(raised), fault=fault))
+                              before=before, after=after, raised=tuple(raised), fault=fault,
+                              shapes=tuple(shapes)))
     return steps, viols, raised, nfaultraise
 
 
@@ -581,12 +743,132 @@ def fills(cfg, init):
     return out
 
 
+# ------------------------------------------------------------------------------------------
+# additional families: the dependent method raises (arm) / replacements inside one batch (bat)
+# ------------------------------------------------------------------------------------------
+def model_after(cfg, init, hist, items=()):
+    m = Model(cfg, init)
+    for op in hist:
+        m.apply(op)
+    for it in items:
+        m.apply1(it)
+    return m
+
+
+def cont_ops(cfg):
+    """single operations used before / after an armed operation or a batch (no injected faulty object)"""
+    return [op for op in cfg.ops if op[0] != 'bad'] + [('sam', s) for s in cfg.slots]
+
+
+def armed_histories(cfg, init='full'):
+    """(short, long): histories  arm:a ; c1  /  arm:a ; c1 ; c2  and  p ; arm:a ; c1  over every
+    operation a that must call the method (rdk of every slot and leaf, lsa of every leaf) and all
+    applicable single operations p, c1, c2.  While a is performed the dependent method raises (after
+    it has logged the call); the exception comes out of the assignment and is caught."""
+    short, long_ = [], []
+    C = cont_ops(cfg)
+
+    def armable(m):
+        return [('arm', op) for op in cfg.ops if op[0] in ('rdk', 'lsa') and m.applicable(op)]
+
+    def conts(h):
+        m = model_after(cfg, init, h)
+        return [op for op in C if m.applicable(op)]
+    for a in armable(model_after(cfg, init, ())):
+        for c1 in conts((a,)):
+            short.append((a, c1))
+            for c2 in conts((a, c1)):
+                long_.append((a, c1, c2))
+    for p in conts(()):
+        for a in armable(model_after(cfg, init, (p,))):
+            for c1 in conts((p, a)):
+                long_.append((p, a, c1))
+    return short, long_
+
+
+def batch_ops(cfg, init, hist, maxlen):
+    """every batch applicable after `hist`: on the top object and on every attached intermediate
+    object H; mode 'upd': 1..2 items assigning DIFFERENT parameters of H (both orders); mode 'ctx':
+    sequences of 1..maxlen single operations (sam/req/rdk/det/att/rat of every slot, lsa of every
+    leaf; the same slot may be assigned several times) of which at least one assigns a parameter of
+    H.  Returns a list of (number of items, op)."""
+    items_all = [op for op in cfg.ops if op[0] in ('req', 'rdk', 'det', 'att', 'rat', 'lsa')] + \
+        [('sam', s) for s in cfg.slots]
+    m0 = model_after(cfg, init, hist)
+    out = []
+    for H in [''] + [s for s in cfg.slots if cfg.slot_cls[s] == 'M' and m0.at(s) is not None]:
+        hidx = m0.at(H)
+
+        def rec(items, nbatched, attrs):
+            m = model_after(cfg, init, hist, items)
+            for it in items_all:
+                if not m.applicable(it):
+                    continue
+                own = m.holder_of(it) == hidx
+                attr = it[1].split('.')[-1] if it[0] != 'lsa' else cfg.leaves[it[1]][1]
+                seq = items + (it,)
+                if nbatched + own:
+                    out.append((len(seq), ('bat', 'ctx', H, seq)))
+                if own and nbatched == len(items) and attr not in attrs and len(seq) <= 2:
+                    out.append((len(seq), ('bat', 'upd', H, seq)))
+                if len(seq) < maxlen:
+                    rec(seq, nbatched + own, attrs + (attr,) if own else attrs)
+        rec((), 0, ())
+    return out
+
+
+def batch_histories(cfg, tier, init='full'):
+    """(short, long): short = batch of <= 2 items ; probing operation.  long = batch of <= 2 items ;
+    any other applicable single operation / batch of 3 items ; probing operation / p ; batch of <= 2
+    items ; probing operation (p: every applicable single operation).
+    Probing operations: lsa / lsd of every leaf (does the attached object drive the method, is the
+    detached one silent) -- the watcher tables are inspected after every step anyway."""
+    short, long_ = [], []
+    C = cont_ops(cfg)
+
+    def conts(h, probing=False):
+        m = model_after(cfg, init, h)
+        return [op for op in C if m.applicable(op) and (not probing or op[0] in ('lsa', 'lsd'))]
+    for n, b in batch_ops(cfg, init, (), 3):
+        cs = conts((b,), probing=(n == 3))
+        for c1 in cs:
+            (short if n <= 2 and c1[0] in ('lsa', 'lsd') else long_).append((b, c1))
+        if not cs:
+            (short if n <= 2 else long_).append((b,))
+    for p in conts(()):
+        if p[0] in ('lsa', 'lsd', 'sam'):
+            continue
+        for n, b in batch_ops(cfg, init, (p,), 2):
+            cs = conts((p, b), probing=True)
+            for c1 in cs:
+                long_.append((p, b, c1))
+            if not cs:
+                long_.append((p, b))
+    return short, long_
+
+
+# ('a.b.param' is left out of the batch family: every replacement of a fires it, known finding C07-b04)
+BATCH_ALL = [c for c in CONFIGS if c != ('a.b.param',)]
+BATCH_QUICK = [('a.x',), ('a.x', 'c.x'), ('a.x', 'z'), ('a.b.x',), ('a.b.x', 'a.c.x'), ('a.b.x', 'a.x')]
+
+
+def family_chunk(args):
+    """worker: enumerates the armed / batch histories of one configuration"""
+    which, specs, tier, seed = args
+    cfg = Cfg(specs)
+    if which == 'arm':
+        short, long_ = armed_histories(cfg)
+    else:
+        short, long_ = batch_histories(cfg, tier)
+    return which, specs, short, long_
+
+
 def run_chunk(tasks):
     """tasks: (specs, init, prefix, k) -- expands the prefix to all histories of length k and runs them"""
     res = []
     for specs, init, prefix, k in tasks:
         cfg = Cfg(specs)
-        for h in histories(cfg, init, k, prefix):
+        for h in ([prefix] if k is None else histories(cfg, init, k, prefix)):
             steps, viols, raised, nfr = run_history(specs, init, h)
             res.append((specs, init, h, steps, viols, raised, nfr))
     return res
@@ -618,7 +900,12 @@ def replay_of(v, clause, witness):
             src += render(ins) + '\n'
         if i == len(v['hist']) - 1:
             src += 'del LOG[:]\n'
-        src += 'try:\n    ' + render(new[-1]) + '\nexcept Exception as e:\n    print("this assignment raised", repr(e))\n'
+        if op[0] == 'arm':
+            src += 'ARM[0] = True        # the dependent method raises when it is called now\n'
+        src += 'try:\n' + '\n'.join('    ' + ln for ln in render(new[-1]).split('\n'))
+        src += '\nexcept Exception as e:\n    print("this assignment raised", repr(e))\n'
+        if op[0] == 'arm':
+            src += 'ARM[0] = False\n'
     if v['kind'] == 'leak':
         src += "n = watcher_count(n%d)\n" % v['leak_idx']
         src += "print('watchers left on the detached object n%d:', n)\n" % v['leak_idx']
@@ -641,6 +928,9 @@ CONFIRM = True      # scratch mutation harnesses (in-memory patches) switch the 
 def confirm(src):
     if not CONFIRM:
         return True
+    repo = os.environ.get('PYVC_REPO', '/repo')
+    if repo != '/repo':     # checking a scratch copy of the library: confirm against that copy
+        src = src.replace("sys.path.insert(0, '/repo')", "sys.path.insert(0, %r)" % repo)
     with tempfile.NamedTemporaryFile('w', suffix='.py', delete=False) as f:
         f.write(src)
         path = f.name
@@ -668,12 +958,19 @@ def _run(tier, seed):
               "sets additionally: every order of filling the missing levels top-down / bottom-up / mixed "
               "from every initial state, followed by all histories; after every step: number of calls vs "
               "the shadow model of the values reached through the current paths, and watcher tables of all "
-              "objects no longer reachable. A case = (dependency set, initial state, history of maximal "
+              "objects no longer reachable. Additional families from the full state: (arm) an operation that "
+              "must call the method is performed while the method itself raises (exception caught), preceded / "
+              "followed by all single operations; (bat) 1..3 operations (incl. re-assigning the SAME object, the "
+              "same slot several times) inside ONE batch -- H.param.update(...) or `with batch_call_watchers(H)` "
+              "on the top object or an attached intermediate object H -- followed / preceded by single "
+              "operations: one call per batch iff the reached values differ over the batch. "
+              "A case = (dependency set, initial state, history of maximal "
               "length); all shorter histories are its prefixes and are checked step by step"
               % len(CONFIGS)),
         bound=("histories of length <= %d (depth-3 sets: fill sequence of <= 3 attachments + %d further "
                "operations); path depth <= 3; <= 2 dependency leaves (4 for 'param'); <= 1 faulty object "
-               "per slot at a time" % (k, kx)))
+               "per slot at a time; armed / batch families: <= 3 steps, batches of <= 3 items (update: <= 2)"
+               % (k, kx)))
     warnings.simplefilter('ignore')
     tasks = []
     nfill = 0
@@ -690,12 +987,32 @@ def _run(tier, seed):
                     for h in histories(cfg, init, len(fill) + 1, fill):
                         tasks.append((specs, init, h, len(fill) + kx))
     nchunk = 256
-    chunks = [tasks[i::nchunk] for i in range(nchunk)]
     allv = []
     raisers = {}
     samples = []
     nfaultraise = 0
+    nboom = 0
     with ProcessPoolExecutor(max_workers=min(16, os.cpu_count() or 4)) as ex:
+        # ---- additional families (explicit histories, enumerated in the workers):
+        #      the dependent method raises / replacements inside one batch
+        fam = [('arm', specs, tier, seed) for specs in CONFIGS]
+        fam += [('bat', specs, tier, seed) for specs in (BATCH_ALL if tier == 'thorough' else BATCH_QUICK)]
+        nfam = {'arm': [0, 0], 'bat': [0, 0]}
+        for which, specs, short, long_ in ex.map(family_chunk, fam):
+            if tier != 'thorough':
+                B.exhaustive = False
+                stride = {'arm': 12, 'bat': 32}[which]
+                long_ = long_[seed % stride::stride]
+            nfam[which][0] += len(short)
+            nfam[which][1] += len(long_)
+            for h in short + long_:
+                tasks.append((specs, 'full', h, None))
+        B.note('additional families: method raises (arm): %d histories of 2 + %d of 3 operations; batches (bat): '
+               '%d histories batch;probe + %d others%s' % (
+                   nfam['arm'][0], nfam['arm'][1], nfam['bat'][0], nfam['bat'][1],
+                   '' if tier == 'thorough' else ' (the longer ones are a seeded 1/12 resp. 1/32 slice; batches on '
+                   '%d of the %d dependency sets)' % (len(BATCH_QUICK), len(BATCH_ALL))))
+        chunks = [tasks[i::nchunk] for i in range(nchunk)]
         futs = [ex.submit(run_chunk, c) for c in chunks if c]
         for fu in futs:
             for specs, init, h, steps, viols, raised, nfr in fu.result():
@@ -708,6 +1025,9 @@ def _run(tier, seed):
                     samples.append((specs, init, h))
                 nfaultraise += nfr
                 for i, exc in raised:
+                    if exc == 'Boom':
+                        nboom += 1      # the armed dependent method raised, as intended
+                        continue
                     if any(o[0] == 'bad' for o in h[:i + 1]):
                         continue        # raised by / after an injected fault: summarised in one note
                     rk = (specs, op_str(h[i]), exc)
@@ -725,7 +1045,7 @@ def _run(tier, seed):
         """(class key, fallback key or None)"""
         op = v['hist'][-1]
         changed = tuple(i for i, (b, a) in enumerate(zip(v['before'], v['after'])) if b != a)
-        if op[0] in ('req', 'rdk', 'rat', 'att', 'det', 'atd'):
+        if op[0] in ('req', 'rdk', 'rat', 'att', 'det', 'atd', 'sam'):
             oc = 'assign(%s)' % op[1]
         else:
             oc = op_str(op)
@@ -734,6 +1054,20 @@ def _run(tier, seed):
         if bops:
             return normal, (v['clause'], None, v['kind'], 'fault@%d:%s' % (
                 bops[0][1].count('.') + 1, 'present' if v.get('fault') else 'cleared'))
+        arms = [o[1] for o in v['hist'] if o[0] == 'arm']
+        if arms:
+            # the dependent method raised: one class per (clause, kind, armed operation kind, level of
+            # the assigned object, failing AT the raising step / AFTER it), over all dependency sets
+            a = arms[0]
+            lvl = (a[1] if a[0] == 'rdk' else Cfg(v['specs']).leaves[a[1]][0]).count('.') + 1
+            if a[0] == 'lsa' and not Cfg(v['specs']).leaves[a[1]][0]:
+                lvl = 0
+            return normal, (v['clause'], None, v['kind'], 'mraise:%s@%d:%s' % (
+                a[0], lvl, 'at' if op[0] == 'arm' else 'after'))
+        if v.get('shapes'):
+            # a batch: one class per (clause, kind, kinds of items batched), over all dependency sets
+            return normal, (v['clause'], None, v['kind'], '%s:%s' % (
+                'batch' if op[0] == 'bat' else 'afterbatch', v['shapes'][-1]))
         if v['raised'] and v['raised'][0][0] < len(v['hist']) - 1:
             i, exc = v['raised'][0]
             return normal, (v['clause'], v['specs'], v['kind'], 'after ' + op_str(v['hist'][i]) + '!' + exc)
@@ -751,9 +1085,11 @@ def _run(tier, seed):
         groups.setdefault(key if key in pure else fallback, []).append(v)
     reports = []
     for key in groups:
-        rep = min(groups[key], key=lambda v: (bool(v['raised']), len(v['hist']), CONFIGS.index(v['specs']),
+        rep = min(groups[key], key=lambda v: (bool(v['raised']), len(v['hist']),
+                                              sum(len(o[3]) for o in v['hist'] if o[0] == 'bat'),
+                                              v['lo'] != v['hi'], CONFIGS.index(v['specs']),
                                               v['init'] != 'full',
-                                              [Cfg(v['specs']).ops.index(o) for o in v['hist']]))
+                                              [op_order(Cfg(v['specs']), o) for o in v['hist']]))
         witness = 'deps=%s init=%s hist=%s kind=%s changed=%s got=%d want=%s' % (
             '+'.join(rep['specs']), rep['init'], hist_str(rep['hist'], rep['raised']), rep['kind'],
             ','.join(str(i) for i, (b, a) in enumerate(zip(rep['before'], rep['after'])) if b != a) or '-',
@@ -782,6 +1118,9 @@ def _run(tier, seed):
     for clause, n in sorted(per_clause.items()):
         if n > MAX_PER_CLAUSE:
             B.note('%s: %d further witness classes suppressed (cap %d per clause)' % (clause, n - MAX_PER_CLAUSE, MAX_PER_CLAUSE))
+    if nboom:
+        B.note('%d assignments raised Boom: the armed dependent method raised during the call, as intended '
+               '(arm:...); the caller caught it and the histories continued' % nboom)
     if nfaultraise:
         B.note('%d assignments raised while an injected faulty object (bad) was attached (expected: the '
                'dependency cannot be resolved); the histories continued' % nfaultraise)
